@@ -39,7 +39,7 @@ LEVEL_NOTE = "Trusts the canonical snapshot to expose every header field and eve
 TECHNIQUE = "runtime monitoring: icontract snapshot/ensure frame condition on LASFile.write + consecutive-output comparison + independent output tokeniser"
 
 _ctx = None
-EDITS = ["none", "index_replace", "index_inplace", "other_curve", "header", "insert_index", "delete_index", "index_tiny_shift", "index_tiny_inplace"]
+EDITS = ["none", "index_replace", "index_inplace", "other_curve", "header", "insert_index", "delete_index", "index_tiny_shift", "index_tiny_inplace", "stale_duplicates"]
 CONSTR = ["scratch", "read", "wrong_stop"]
 
 
@@ -195,7 +195,7 @@ def grid(tier):
     for constr in CONSTR:
         for edit in EDITS:
             for shape in ("increasing", "decreasing", "single", "irregular"):
-                for opts in ({}, {"version": 1.2}, {"version": 2, "wrap": True}, {"wrap": False, "fmt": "%.2f"}):
+                for opts in ({}, {"version": 1.2}, {"version": 2, "wrap": True}, {"wrap": False, "fmt": "%.2f"}) + (({"mnemonics_header": True},) if edit in ("stale_duplicates", "other_curve") else ()):
                     rng = random.Random("C16grid:%d" % i)
                     i += 1
                     yield {"kind": "gen", "spec": base_spec(rng, shape), "constr": constr, "edit": edit,
@@ -277,6 +277,16 @@ def construct(ctx, case):
         if d.dtype.kind != "f":
             return None, "text curve"
         d[0] = 123.456
+    elif edit == "stale_duplicates":
+        # one member of a duplicate family removed (the survivors keep ':2', ':3') and a curve renamed onto an existing name:
+        # lasio does not renumber on its own, and writing must not either
+        k0 = len(las.curves)
+        las.append_curve("ZDUP", np.arange(n, dtype=float) + 1.0)
+        las.append_curve("ZDUP", np.arange(n, dtype=float) + 2.0)
+        las.append_curve("ZDUP", np.arange(n, dtype=float) + 3.0)
+        las.delete_curve(ix=k0)
+        if len(las.curves) >= 4:
+            list(las.curves)[1].mnemonic = list(las.curves)[2].original_mnemonic
     elif edit == "header":
         las.well["COMP"] = "edited company"
         las.params.append(lasio.HeaderItem("NEWP", "u", 5, "new parameter"))
